@@ -30,6 +30,8 @@ import (
 	"testing"
 	"time"
 
+	"github.com/Comcast/sheens/core"
+	"github.com/Comcast/sheens/crew"
 	"github.com/Comcast/sheens/match"
 )
 
@@ -355,12 +357,14 @@ func TestVerifSystem(t *testing.T) {
 	log.SetOutput(io.Discard)
 	Verbose = false
 	var cfg sysConfig
-	js, err := os.ReadFile(filepath.Join(os.Getenv("VERIF_SYS_DIR"), "mcrewinputs.json"))
-	if err != nil {
-		t.Fatal(err)
-	}
-	if err := json.Unmarshal(js, &cfg); err != nil {
-		t.Fatal(err)
+	if mode != "getspec" {
+		js, err := os.ReadFile(filepath.Join(os.Getenv("VERIF_SYS_DIR"), "mcrewinputs.json"))
+		if err != nil {
+			t.Fatal(err)
+		}
+		if err := json.Unmarshal(js, &cfg); err != nil {
+			t.Fatal(err)
+		}
 	}
 	f, err := os.Create(os.Getenv("VERIF_OUT_FILE"))
 	if err != nil {
@@ -377,6 +381,8 @@ func TestVerifSystem(t *testing.T) {
 	}
 	defer os.RemoveAll(dir)
 	switch mode {
+	case "getspec":
+		getspecMode(t, enc)
 	case "replay":
 		in, err := os.Open(os.Getenv("VERIF_IN"))
 		if err != nil {
@@ -441,5 +447,80 @@ func TestVerifSystem(t *testing.T) {
 			}
 			enc.Encode(sysRun(id, &cfg, dir, nil, pick))
 		}
+	}
+}
+
+// getspecMode (C13): every YAML file loaderdrv exported is loaded through the real Service.GetSpec (file with inlines,
+// YAML, compiled with the service's interpreters) and walked over the case's message sequences, exactly as loaderdrv
+// walks its other renderings; results are plain JSON (loaderdrv merge encodes them).
+func getspecMode(t *testing.T, enc *json.Encoder) {
+	dir := os.Getenv("VERIF_SYS_DIR")
+	ctx := context.Background()
+	s, err := NewService(ctx, filepath.Join(dir, "specs"), "", "")
+	if err != nil {
+		t.Fatal(err)
+	}
+	in, err := os.Open(filepath.Join(dir, "getspec_in.ndjson"))
+	if err != nil {
+		t.Fatal(err)
+	}
+	sc := bufio.NewScanner(in)
+	sc.Buffer(make([]byte, 1<<20), 1<<28)
+	for sc.Scan() {
+		var c struct {
+			Id   int             `json:"id"`
+			Name string          `json:"name"`
+			Seqs [][]interface{} `json:"seqs"`
+		}
+		if err := json.Unmarshal(sc.Bytes(), &c); err != nil {
+			t.Fatal(err)
+		}
+		out := vO{"id": c.Id, "err": "", "seqs": vT{}}
+		var spec *core.Spec
+		func() {
+			defer func() {
+				if r := recover(); r != nil {
+					out["err"] = fmt.Sprintf("panic: %v", r)
+				}
+			}()
+			specter, err := s.GetSpec(ctx, &crew.SpecSource{Name: c.Name})
+			if err != nil {
+				out["err"] = err.Error()
+				return
+			}
+			spec = specter.Spec()
+		}()
+		if spec != nil {
+			seqs := vT{}
+			for _, ms := range c.Seqs {
+				st := &core.State{NodeName: "start", Bs: match.Bindings{}}
+				steps := vT{}
+				for _, m := range ms {
+					var w *core.Walked
+					outcome := "returned"
+					func() {
+						defer func() {
+							if r := recover(); r != nil {
+								outcome = "panicked"
+							}
+						}()
+						w, _ = spec.Walk(ctx, st, []interface{}{deepCopyJSON(m)}, &core.Control{Limit: 12}, nil)
+					}()
+					if w == nil {
+						steps = append(steps, vO{"outcome": outcome, "none": true})
+						continue
+					}
+					if to := w.To(); to != nil {
+						st = to
+					}
+					em := vT{}
+					w.DoEmitted(func(x interface{}) error { em = append(em, deepCopyJSON(x)); return nil })
+					steps = append(steps, vO{"outcome": outcome, "node": st.NodeName, "bs": deepCopyJSON(map[string]interface{}(st.Bs)), "emitted": em})
+				}
+				seqs = append(seqs, steps)
+			}
+			out["seqs"] = seqs
+		}
+		enc.Encode(out)
 	}
 }
